@@ -210,3 +210,25 @@ def mutations(texts, rng, per_text):
                     s = s.replace(" ", rng.choice(["", "  ", "\n", " #c\n"]), 1)
             out.append(s)
     return out
+
+
+LEXEMES = ["a", "a1", "_", "m::f", "m::$v", "m::@f", "m::f::g", "m::_", "$x", "$_1", "@f", "@base64d", "1", "10", "1.5", "1e3", "1e+3", "1E-3", "1.5e3", "0.0E0",
+           ".", "..", ".a", "._a", ".a1", "+", "-", "<", "<=", "=", "==", "!=", "//", "//=", "|", "|=", "*", "%", ":", ";", ",", "?",
+           '"s"', '""', '"a\\(1)b"', '"\\u00e9\\n"', "(1)", "[1]", "{}", "( )", "[ # c\n ]"]
+FOLLOWERS = ["", " ", "a", "_", "1", ".", "..", ".a", "e", "E", "e1", "e+1", "+", "-", "=", "|", "<", "/", "%", "!", "::", ":", "::b", "::$b", "::@b", "::1",
+             "#c\n", "#c", "# c \\\n d", "\n", "\r\n", "\u00a0", "\u2003", "\u200b", "(", ")", "[", "]", "}", '"t"', "$y", "@g", "?", ";", ",", "\\", "$", "@"]
+
+
+def lexemes(rng, thorough):
+    """every lexeme class followed immediately by every kind of character that could (or could not) be glued to it:
+    the separation condition `Token.glues` of Layout.lean, exercised exhaustively against the real lexer"""
+    out = []
+    for l in LEXEMES:
+        for f in FOLLOWERS:
+            out.append(l + f)
+            out.append("[" + l + f + " ]")
+            out.append('"\\(' + l + f + ' )"')
+    for _ in range(6000 if thorough else 1500):
+        k = rng.randrange(2, 6)
+        out.append("".join(rng.choice(LEXEMES + FOLLOWERS) for _ in range(k)))
+    return out
